@@ -18,6 +18,7 @@ type constDef struct {
 	isIdent bool     // expansion is a single identifier (usable as a mart item)
 	paren   bool     // expansion contains parentheses (only legal where nesting is allowed)
 	at      int      // index of the first top-level item that may use it
+	isBool  bool     // value is one of true/TRUE/false/FALSE
 }
 
 var constValuePool = [][]string{{"3"}, {"FLAG_TEMP_1", "+", "3", "-", "FLAG_BASE"}, {"A", "+", "B", "+", "C", "+", "D"}, {"VAR_X", "*", "2", "+", "OFFSET", "-", "1"}, {"ITEM_NONE"}, {"0x00ff"}, {"VAR_TEMP_1"}, {"FLAG_HIDE", "+", "1"}, {"0x4001"}, {"(", "2", "*", "3", ")"}, {"ITEM_FOO"}, {"-1"}, {"TRAINER_X"}, {"LOCALID_NPC"}, {"A_B", "C_D"}}
@@ -46,7 +47,10 @@ func injectConsts(k *h.Case, g *spec.Gen, prog *spec.Program) []*constDef {
 		d := &constDef{name: g.Name([]string{"CONST_", "CONST_", "ÉTAGE_", "定数_"}[r.IntN(4)])}
 		v := constValuePool[r.IntN(len(constValuePool))]
 		d.value = append([]string{}, v...)
-		if len(defs) > 0 && r.IntN(2) == 0 {
+		if r.IntN(7) == 0 {
+			d.value = []string{[]string{"true", "TRUE", "false", "FALSE"}[r.IntN(4)]}
+			d.isBool = true
+		} else if len(defs) > 0 && r.IntN(2) == 0 {
 			// defined from an earlier constant
 			e := defs[r.IntN(len(defs))]
 			switch r.IntN(3) {
@@ -72,7 +76,9 @@ func injectConsts(k *h.Case, g *spec.Gen, prog *spec.Program) []*constDef {
 				d.expand = append(d.expand, t)
 			}
 		}
-		d.isIdent = len(d.expand) == 1 && isIdentTok(d.expand[0])
+		// (a keyword such as FALSE is not an identifier token: written out it is not a mart item)
+		d.isBool = len(d.expand) == 1 && (d.expand[0] == "true" || d.expand[0] == "TRUE" || d.expand[0] == "false" || d.expand[0] == "FALSE")
+		d.isIdent = len(d.expand) == 1 && isIdentTok(d.expand[0]) && !d.isBool
 		for _, t := range d.expand {
 			if t == "(" || t == ")" {
 				d.paren = true
@@ -99,9 +105,33 @@ func injectConsts(k *h.Case, g *spec.Gen, prog *spec.Program) []*constDef {
 		uses++
 		return "$" + el[r.IntN(len(el))].name, true
 	}
+	// early use: the NAME of a constant that is only defined further down the file, written at a use site. It
+	// is an ordinary identifier there ("every later use"), so it is printed as a plain token in P and in P'.
+	pickEarly := func(item int, needIdent bool) (string, bool) {
+		var el []*constDef
+		for _, d := range defs {
+			if d.at > item && (!needIdent || d.isIdent) {
+				el = append(el, d)
+			}
+		}
+		if len(el) == 0 || r.IntN(5) != 0 {
+			return "", false
+		}
+		return el[r.IntN(len(el))].name, true
+	}
 	sub := func(item int, toks []string, p float64, what string) []string {
 		if len(toks) == 0 || r.Float64() >= p {
 			return toks
+		}
+		if c, ok := pickEarly(item, false); ok && what != "autovar_arg" {
+			out := append([]string{}, toks...)
+			i := r.IntN(len(out))
+			if out[i] == "(" || out[i] == ")" || out[i] == "," {
+				return toks
+			}
+			out[i] = c
+			k.Count("early_name_"+what, 1)
+			return out
 		}
 		c, ok := pick(item, false, what == "command_arg" || what == "autovar_arg" || what == "value_fn")
 		if !ok {
@@ -153,6 +183,18 @@ func injectConsts(k *h.Case, g *spec.Gen, prog *spec.Program) []*constDef {
 				cmd(item, x.Auto)
 			} else {
 				x.Operand = sub(item, x.Operand, 0.4, x.Kind+"_operand")
+			}
+			if x.Op != "" && (x.Kind == spec.LeafFlag || x.Kind == spec.LeafDefeated) && r.IntN(14) == 0 {
+				var el []*constDef
+				for _, d := range defs {
+					if d.isBool && d.at <= item {
+						el = append(el, d)
+					}
+				}
+				if len(el) > 0 {
+					x.Value = []string{"$" + el[r.IntN(len(el))].name}
+					k.Count("const_use_flag_comparison_value(undocumented)", 1)
+				}
 			}
 			if x.Op != "" && (x.Kind == spec.LeafVar || x.Kind == spec.LeafAuto) {
 				if x.Raw {
@@ -208,6 +250,11 @@ func injectConsts(k *h.Case, g *spec.Gen, prog *spec.Program) []*constDef {
 		case *spec.MartItem:
 			for _, e := range x.Items {
 				if e.PS == nil && r.IntN(2) == 0 {
+					if c, ok := pickEarly(i, false); ok {
+						e.Name = c
+						k.Count("early_name_mart_item", 1)
+						continue
+					}
 					if c, ok := pick(i, true, false); ok {
 						e.Name = c
 						k.Count("const_use_mart_item", 1)
@@ -264,6 +311,9 @@ func addDecoys(k *h.Case, g *spec.Gen, prog *spec.Program, defs []*constDef) {
 		if av.ArgPos < 0 && r.IntN(2) == 0 {
 			prog.Items = append([]spec.Item{&spec.Const{ID: prog.NewID(), Name: av.VarName, Value: []string{"VAR_TEMP_9"}}}, prog.Items...)
 			k.Count("decoy_autovar_result_var", 1)
+			for _, d := range defs {
+				d.at++ // the item indices moved by one
+			}
 			break
 		}
 	}
@@ -383,6 +433,12 @@ func runC13(ctx *h.Ctx) int {
 		k.Count("evaluations", 2)
 		if r1.Panic != nil || r2.Panic != nil {
 			k.Violation("panic", fmt.Sprintf("panic: %v / %v", r1.Panic, r2.Panic), map[string]interface{}{"substituted_source": p2.Src})
+			return
+		}
+		if !r1.OK() && k.Local("const_use_flag_comparison_value(undocumented)") > 0 && strings.Contains(r1.ErrString(), "comparison value") && strings.Contains(r1.ErrString(), "Only TRUE and FALSE are allowed") {
+			// a constant as the TRUE/FALSE value of a flag()/defeated() comparison is not one of the documented
+			// positions: the compiler may reject it; if it accepts it, the output must be that of the literal
+			k.Count("undocumented_position_rejected", 1)
 			return
 		}
 		if r1.OK() != r2.OK() {
